@@ -15,10 +15,10 @@ import (
 // refSpec describes one reference-model comparison monitor (C08-C14).
 type refSpec struct {
 	eco     string
-	domain  func(s string) bool                                       // the property's per-string validity filter
-	cmp     func(a, b string) (sign int, rule string, claimed bool)   // reference verdict; claimed=false => Unclaimed zone
-	extra   func(r *rand.Rand) []string                               // directed cluster generator for this grammar
-	vectors []string                                                  // fixed strings present in the first pool of every run
+	domain  func(s string) bool                                     // the property's per-string validity filter
+	cmp     func(a, b string) (sign int, rule string, claimed bool) // reference verdict; claimed=false => Unclaimed zone
+	extra   func(r *rand.Rand) []string                             // directed cluster generator for this grammar
+	vectors []string                                                // fixed strings present in the first pool of every run
 }
 
 // evalRefPair re-evaluates one pair against the model.
@@ -293,6 +293,11 @@ func init() {
 		out := []string{base}
 		tails := []string{"a", "+", ".", "~", "~~", "~a", "a0", "a1", "0", "00", ".0", "+b1", "~rc1", "-1", "-0", "-1~bpo1", "-1+b1", "+dfsg-1", "a~", ".a", "+a", "~+", "ab", "a.", "a+", "a~1",
 			"99999999999999999999", "099999999999999999999", "100000000000000000000", ".99999999999999999999", ".0100000000000000000000", "-1-1", "-a-1", "-0-0", "+-1", "A", "Z", "z", "aA"}
+		if r.IntN(3) == 0 { // same-length big-number neighbours in upstream and revision
+			for _, bn := range gen.BigFamily(r, 5) {
+				out = append(out, base+"."+bn, bn, base+"-"+bn, bn+"+b1", base+"."+bn+"~rc1")
+			}
+		}
 		for k := 0; k < 26; k++ {
 			s := base + gen.Pick(r, tails...)
 			if r.IntN(3) == 0 {
@@ -317,6 +322,11 @@ func init() {
 		out := []string{base}
 		tails := []string{"a", ".a", ".1", "1", "01", ".01", "^", "^git1", "^1", "~", "~rc1", "~rc1^git", "~~", "_1", "_", "+", "..1", "._1", "a1", "1a", ".rc1", "rc1", "^^", "~^", "^~",
 			"-1", "-a", "-1.el8", "-", "-^", "-~", "99999999999999999999", ".99999999999999999999", ".099999999999999999999", "A", "Z", "z", ".", "+a", "_a", "a.", ".0", "00"}
+		if r.IntN(3) == 0 { // same-length big-number neighbours in version and release
+			for _, bn := range gen.BigFamily(r, 5) {
+				out = append(out, base+"."+bn, bn, base+"-"+bn, bn+"^1", base+"."+bn+"~rc1")
+			}
+		}
 		for k := 0; k < 28; k++ {
 			s := base + gen.Pick(r, tails...)
 			if r.IntN(3) == 0 {
@@ -410,7 +420,9 @@ func init() {
 			gemV = append(gemV, v[0], v[1])
 		}
 	}
-	c13 := []*refSpec{{eco: "gem", domain: func(s string) bool { return ref.GemValid(s) && !hasUpper.MatchString(s) && !longDigits.MatchString(s) && strings.TrimSpace(s) == s },
+	c13 := []*refSpec{{eco: "gem", domain: func(s string) bool {
+		return ref.GemValid(s) && !hasUpper.MatchString(s) && !longDigits.MatchString(s) && strings.TrimSpace(s) == s
+	},
 		cmp: func(a, b string) (int, string, bool) { c, r := ref.GemCmp(a, b); return c, r, true }, extra: gemExtra, vectors: gemV}}
 	register(mkRefCheck("C13", refRuleText, []string{"ref/gem.go transcribes Gem::Version (segments, canonical_segments, <=>); no ruby in this image, the model is anchored on vectors of rubygems' test_gem_version.rb (go test ./ref)"}, c13))
 
